@@ -193,6 +193,39 @@ func runC04History(r *mon.Run, stream uint64) {
 			}
 		}
 	}
+	// the pre-validated path notifies too: extend the tip with v2 blocks through
+	// AddValidatedV2Blocks (only above the require height, where it is used)
+	if a.Tip.Height >= p.Require && len(listeners) > 0 {
+		x := a.Tip
+		var ext []*chainlab.Node
+		for i := 0; i < 1+rng.IntN(3); i++ {
+			x = t.Extend(x, chainlab.Profile{MaxTxns: 3})
+			ext = append(ext, x)
+		}
+		if ext[0].Block.V2 != nil {
+			for _, l := range listeners {
+				l.calls = nil
+			}
+			old := a.Tip
+			_, fs := a.SubmitValidated(ext)
+			if len(fs) > 0 {
+				reportFindings(r, chainCase{Kind: "c04-validated", Stream: stream, Params: p}, t, a, fs)
+				return
+			}
+			for id, l := range listeners {
+				lmu.Lock()
+				calls := append([]types.ChainIndex(nil), l.calls...)
+				lmu.Unlock()
+				if a.Tip != old && (len(calls) != 1 || calls[0] != a.Tip.L.State.Index) {
+					r.Violation("reorg-notification-count:validated", fmt.Sprintf("AddValidatedV2Blocks moved the tip but listener %d was invoked %d times (or with the wrong index)", id, len(calls)), cs, nil)
+					return
+				}
+				if a.Tip != old {
+					r.Count("reorg_notifications_checked_validated_path", 1)
+				}
+			}
+		}
+	}
 	// quiescence: everyone polls to completion within the progress bound
 	for _, s := range subs {
 		// distance = reverts to the fork point + applies to the tip
